@@ -3375,6 +3375,33 @@ class Evaluator:
                 return [(state, ("tuplelit" if name == "tuple" else "listlit", ()))]  # nothing to list / sort
             if name in ("list", "tuple") and a[0] in ("listlit", "tuplelit"):
                 return [(state, ("listlit" if name == "list" else "tuplelit", a[1]))]
+            a0 = a
+            if name in ("list", "tuple") and not kwargs and a0[0] == "comp" and a0[1] in ("list", "gen") and len(a0[3]) == 1 and not a0[3][0][2] and a0[3][0][0][0] == "tuplelit" \
+                    and len(a0[3][0][0][1]) == 2 and a0[2] == a0[3][0][0][1][0]:
+                src = a0[3][0][1]
+                if src[0] == "call" and isinstance(src[1], str) and src[1].split(".")[-1] == "groupby" and len(src[2]) == 1 and not src[3]:
+                    inner = src[2][0]
+                    was_sorted = inner[0] == "call" and inner[1] == "sorted" and len(inner[2]) == 1 and not inner[3]
+                    lit = self._literal_items(inner[2][0] if was_sorted else inner)
+                    if lit is not None and len(lit) <= 6 and was_sorted:
+                        # [k for k, _ in groupby(sorted(L))]: one representative per run of equal elements; after sorting, equal elements are
+                        # adjacent -- decided only when every pair of elements is known to be equal (the same term) or unequal (by class)
+                        kept: list = []
+                        ok_ = True
+                        for x_ in lit:
+                            same = False
+                            for y_ in kept:
+                                if x_ == y_:
+                                    same = True
+                                    break
+                                if self._eq_by_class(x_, y_) != FALSE:
+                                    ok_ = False
+                            if not ok_:
+                                break
+                            if not same:
+                                kept.append(x_)
+                        if ok_:
+                            return [(state, ("call", name, (("call", "sorted", (("listlit", tuple(kept)),), ()),), ()))]
             if name == "sorted" and a[0] in ("listlit", "tuplelit") and len(a[1]) == 2 and all(x[0] != "star" for x in a[1]) and set(kwargs) == {"key"}:
                 # sorted([x, y], key=k): y comes first exactly when k(y) < k(x) (the sort is stable)
                 x0, x1 = a[1]
